@@ -1493,6 +1493,7 @@ def _deref(lexer, node):
                 func_call("add", NodeDeref(
                     node, index, None, pos), value, pos),
                 pos,
+                compound=("add", None, value),
             )
             interrupt = True
         elif lexer.matchIf("-=", "operator"):
@@ -1503,6 +1504,7 @@ def _deref(lexer, node):
                 func_call("sub", NodeDeref(
                     node, index, None, pos), value, pos),
                 pos,
+                compound=("sub", None, value),
             )
             interrupt = True
         elif lexer.matchIf("*=", "operator"):
@@ -1513,6 +1515,7 @@ def _deref(lexer, node):
                 func_call("mul", NodeDeref(
                     node, index, None, pos), value, pos),
                 pos,
+                compound=("mul", None, value),
             )
             interrupt = True
         elif lexer.matchIf("/=", "operator"):
@@ -1523,6 +1526,7 @@ def _deref(lexer, node):
                 func_call("div", NodeDeref(
                     node, index, None, pos), value, pos),
                 pos,
+                compound=("div", None, value),
             )
             interrupt = True
         elif lexer.matchIf("%=", "operator"):
@@ -1533,6 +1537,7 @@ def _deref(lexer, node):
                 func_call("mod", NodeDeref(
                     node, index, None, pos), value, pos),
                 pos,
+                compound=("mod", None, value),
             )
             interrupt = True
         else:
@@ -1566,6 +1571,7 @@ def _deref(lexer, node):
                         pos,
                     ),
                     pos,
+                    compound=("add", default_value, value),
                 )
                 interrupt = True
             elif lexer.matchIf(["]", "-="], ["interpunction", "operator"]):
@@ -1580,6 +1586,7 @@ def _deref(lexer, node):
                         pos,
                     ),
                     pos,
+                    compound=("sub", default_value, value),
                 )
                 interrupt = True
             elif lexer.matchIf(["]", "*="], ["interpunction", "operator"]):
@@ -1594,6 +1601,7 @@ def _deref(lexer, node):
                         pos,
                     ),
                     pos,
+                    compound=("mul", default_value, value),
                 )
                 interrupt = True
             elif lexer.matchIf(["]", "/="], ["interpunction", "operator"]):
@@ -1608,6 +1616,7 @@ def _deref(lexer, node):
                         pos,
                     ),
                     pos,
+                    compound=("div", default_value, value),
                 )
                 interrupt = True
             elif lexer.matchIf(["]", "%="], ["interpunction", "operator"]):
@@ -1622,6 +1631,7 @@ def _deref(lexer, node):
                         pos,
                     ),
                     pos,
+                    compound=("mod", default_value, value),
                 )
                 interrupt = True
             else:
